@@ -252,6 +252,8 @@ Inductive op :=
 | OpConvert (b : bool) (u : option nat). (* backend b: processing_pipeline := reg u; Backend.convert() *)
 Definition C_Harness : N := 98.          (* ill-formed program (register out of range): never generated *)
 
+Fixpoint itree_ok (n : nat) (e : itree) : bool :=
+  match e with ILeaf i => Nat.ltb i n | IPlus a b => itree_ok n a && itree_ok n b end.
 Fixpoint aeval (regs : list apipe) (e : itree) : outcome apipe :=
   match e with
   | ILeaf i => match nth_error regs i with Some p => Ok p | None => Crash C_Harness end
@@ -287,8 +289,9 @@ Definition astep (f : fmt) (reg : list aentry) (bk outf : apipe) (rules : list r
            (acc : outcome amach) (o : op) : outcome amach :=
   obind acc (fun m =>
     match o with
-    | OpTree e => obind (aeval (am_regs m) e) (fun p =>
+    | OpTree e => if itree_ok (length (am_regs m)) e then obind (aeval (am_regs m) e) (fun p =>
         Ok {| am_regs := am_regs m ++ [p]; am_lastA := am_lastA m; am_lastB := am_lastB m; am_res := am_res m |})
+                  else Crash C_Harness
     | OpResolve specs => obind (aresolve reg specs) (fun p =>
         Ok {| am_regs := am_regs m ++ [p]; am_lastA := am_lastA m; am_lastB := am_lastB m; am_res := am_res m |})
     | OpInit b u => obind (am_user m u) (fun up => obind (ainit f bk up outf) (fun p => Ok (am_set_last m b p)))
